@@ -1,3 +1,4 @@
+import numpy
 from sklearn.base import BaseEstimator, RegressorMixin, ClassifierMixin, clone
 from sklearn.exceptions import NotFittedError
 from sklearn.linear_model import LinearRegression, LogisticRegression
@@ -206,12 +207,13 @@ class TransformedTargetClassifier2(BaseEstimator, ClassifierMixin):
     @property
     def classes_(self):
         """
-        Returns the classes.
+        Returns the classes, sorted as the columns of
+        *predict_proba* and *decision_function* are.
         """
         self._check_is_fitted()
         inv = self.transformer_.get_fct_inv()
         _, pred_inv = inv.transform(None, self.classifier_.classes_)
-        return pred_inv
+        return numpy.sort(pred_inv)
 
     def _apply(self, X, method):
         """
